@@ -357,4 +357,44 @@ theorem foldUpdEm_hist (s : State) (l : List Eid) (f : EmObj → EmObj) :
   | nil => rfl
   | cons e l ih => simp only [List.foldl_cons]; rw [ih]; simp
 
+theorem putItem_registered (s : State) (mk : Nat → QItem) (onEnq : Nat → Obs) (onDrop : Obs)
+    (h1 : regGhost onDrop = false) (h2 : regGhost (onEnq s.nextUid) = false) (h : Hid) (w : Wid) :
+    registered (s.putItem mk onEnq onDrop).hist h w = registered s.hist h w := by
+  rcases putItem_cases s mk onEnq onDrop with e | e | ⟨d, e⟩
+  · rw [e, log_hist, registered_snoc, regStep_neutral h1]
+  · rw [e]; unfold putBase; rw [log_hist, registered_snoc, regStep_neutral h2]
+  · rw [e, updThread_hist]; unfold putBase; rw [log_hist, registered_snoc, regStep_neutral h2]
+
+/-- the raising callback / client: every `with self._lock` of the thread is unwound -/
+theorem LX.raise {s : State} {ti d : Nat} {t : Thread} (hL : LX s ti d) (ht : s.thread? ti = some t) (o : Obs)
+    (hno : noReg o = true) (hg : GoodAtL s.hist o) (t' : Thread) (hd : depth t' = 0)
+    (hc : CurOK (s.hist ++ [o]) t'.pc t'.cur) :
+    LQ (((if s.lockOwner = some ti then ({ s with lockOwner := none, lockCount := 0 } : State) else s).log o).setThread ti t') := by
+  have h1 : LX (if s.lockOwner = some ti then ({ s with lockOwner := none, lockCount := 0 } : State) else s) ti 0 := by
+    split
+    · rename_i ho
+      have hd0 : 0 < d := by
+        cases d with
+        | zero => exact absurd ho (hL.mine.1 rfl)
+        | succ n => exact Nat.succ_pos n
+      constructor
+      · exact hL.good
+      · intro j tj hj hjt
+        have hz := hL.others_idle hd0 hj hjt
+        have := hL.others j tj hj hjt
+        exact ⟨fun h => by omega, this.cur⟩
+      · exact ⟨fun _ h => (by cases h), fun h => (by omega)⟩
+      · intro j hj hjo; cases hjo
+    · rename_i ho
+      cases d with
+      | zero => exact hL
+      | succ n => exact absurd (hL.mine.2 (Nat.succ_pos n)).1 ho
+  have h2 : (if s.lockOwner = some ti then ({ s with lockOwner := none, lockCount := 0 } : State) else s).hist = s.hist := by
+    split <;> rfl
+  have h3 : (if s.lockOwner = some ti then ({ s with lockOwner := none, lockCount := 0 } : State) else s).thread? ti = some t := by
+    split <;> exact ht
+  generalize (if s.lockOwner = some ti then ({ s with lockOwner := none, lockCount := 0 } : State) else s) = s1 at h1 h2 h3 ⊢
+  refine (h1.log o (by rw [h2]; exact hg) (Or.inl hno)).close (t := t) (by simpa using h3) t' hd ?_
+  simp only [log_hist, h2]; exact hc
+
 end WD.ProofsObs
